@@ -9,7 +9,8 @@ META = {
                    "equal side is the only way to Ok(chunk) (and Chunk's address is recomputed from its bytes on decode); (2) in "
                    "get_vault_from_network every Ok(pad) is cut by Scratchpad::is_valid() and by pad.address() == requested address, the "
                    "split-version candidates pass a retain/filter closure doing both checks before the counter sort, and the version picked "
-                   "is the last after sort_by_key(count); (3) fetch_and_decrypt_vault decrypts only what (2) returned; (4) Scratchpad::is_valid "
+                   "is the last after sort_by_key(count), and the network layer's own split resolution (handle_split_record_error) only ever replaces "
+                   "its candidate by a validly signed version with a strictly higher counter and never clears it; (3) fetch_and_decrypt_vault decrypts only what (2) returned; (4) Scratchpad::is_valid "
                    "verifies the owner's signature over counter and encrypted-data hash and is false without a signature. "
                    "Not decided: BLS soundness, data-map-level integrity beyond chunk granularity.",
     "not_decided": ["BLS signature soundness", "integrity of multi-chunk data beyond per-chunk address checks (follows from 1)"],
@@ -42,6 +43,13 @@ def run(R):
         if not okd:
             R.viol("C15.data", "data-map-source", "data_get_public does not decrypt through the chunk that chunk_get returned for the requested address", dg, dg.lines[0])
         R.inst("C15.data", "K6 flows-to", "data_get_public(addr) = fetch_from_data_map_chunk(chunk_get(addr).value())", len(cgs) + len(fdm), okd)
+    # when holders disagree the network layer resolves the split before get_vault_from_network sees a record: it must keep the
+    # highest-counter validly signed version (rules shared with C05)
+    from props.C05 import split_pad_rules, SPLIT
+    spb = R.body("C15.split", SPLIT)
+    if spb is not None:
+        prep(spb)
+        split_pad_rules(R, spb, "C15.split")
     cg = R.body("C15.chunk", CG + "::{closure#0}")
     if cg is not None:
         prep(cg)
